@@ -333,6 +333,28 @@ let exec (s : t) (verbose : bool) (f : string array) (obs : string option) : str
       "err scan-order-does-not-cover-file-" ^ string_of_n (List.hd missing) ^ " (hypothesis order_ok of the merge theorems)"
     else
     (match e with None -> "ok" | Some e -> "err " ^ eerr_name e) ^ " order " ^ order_s ^ events_str evs
+  | "mergei" ->
+    let o = match obs with Some o -> obs_head o | None -> "ok order" in
+    let order_s = match split_first o "order" with (_, r) -> String.trim r in
+    let order = if order_s = "" then [] else List.map n_of_string (String.split_on_char ',' order_s) in
+    let parse_ops (spec : string) : mop list =
+      if spec = "-" || spec = "" then [] else
+      List.map (fun o -> match String.split_on_char ',' o with
+        | ["p"; k; v] -> MPut (tok_bytes k, tok_bytes v)
+        | ["d"; k] -> MDel (tok_bytes k)
+        | _ -> failwith "bad racing op") (String.split_on_char ';' spec) in
+    let parts = String.split_on_char '|' f.(2) in
+    let pro = parse_ops (List.hd parts) in
+    let sched = List.map parse_ops (List.tl parts) in
+    let d0 = get_db s in
+    let ids = d0.d_active_id :: List.map fst d0.d_older in
+    let missing = List.filter (fun id -> not (List.mem id order)) ids in
+    let (((d, k), e), evs) = db_merge_i d0 s.disk order pro sched in
+    s.db <- Some d; s.disk <- k;
+    if missing <> [] && e = None then
+      "err scan-order-does-not-cover-file-" ^ string_of_n (List.hd missing)
+    else
+    (match e with None -> "ok" | Some e -> "err " ^ eerr_name e) ^ " order " ^ order_s ^ events_str evs
   | "backup" ->
     let ((d, k), evs) = db_backup (get_db s) s.disk in
     (* Backup makes the destination a copy of the data directory (stale data and hint files of an
